@@ -101,8 +101,12 @@ func genStatusScript(r *rand.Rand, kind Kind, half bool) *Script {
 	if r.Intn(3) == 0 {
 		s.Handler = append(s.Handler, Op{Op: "settrl", MD: genMD(r, 2, true)})
 	}
+	if r.Intn(2) == 0 {
+		// callers may ask again after the end: the answer does not turn into a clean end of stream
+		s.Receiver = append(s.Receiver, Op{Op: "recv"}, Op{Op: "recv"})
+	}
 	return s
-}
+	}
 
 func statusProtoOf(err error) *spb.Status {
 	if err == nil {
@@ -183,6 +187,18 @@ func statusOracle(run *Run) (string, string) {
 	}
 	if herr != nil && out.OK {
 		return "success-despite-error", fmt.Sprintf("handler returned %v (%s) but the client reported success", herr, run.S.Ret.How)
+	}
+	if !out.OK {
+		// receives issued after the failure was reported
+		failed := false
+		for _, ev := range append(run.Rets("cr", "recv"), run.Rets("cs", "recv")...) {
+			if failed && ev.Pan == "" && (ev.Err == nil || ev.Err == io.EOF) {
+				return "clean-end-after-failure", fmt.Sprintf("a receive had returned the failure (%v); a later receive returned %v", out.Err, ev.Err)
+			}
+			if ev.Err != nil && ev.Err != io.EOF {
+				failed = true
+			}
+		}
 	}
 	if ok, why := sameStatus(got, want); !ok {
 		cls := "status"
